@@ -1424,6 +1424,7 @@ func (w *World) M19(rec *ScanRecord) []Violation {
 			if allMembers {
 				out = append(out, viol("C19", "member-reported-not-in-group", "group %d: DeleteNodes(%v) answered not-in-group although every node's instance is a member of %s", gr.G, e.Names, snap.Name))
 				out = append(out, viol("C12", "member-reported-not-in-group", "group %d: DeleteNodes(%v) answered not-in-group although every node's instance is a member of %s; the scan stops and later groups are not processed", gr.G, e.Names, snap.Name))
+				out = append(out, viol("C20", "member-reported-not-in-group", "group %d: DeleteNodes(%v) answered not-in-group although every node's instance is a member of %s; the controller stops without the documented condition", gr.G, e.Names, snap.Name))
 			}
 		}
 	}
